@@ -1,4 +1,5 @@
 import OxiVerif.Model.C15
+import OxiVerif.Model.C15Meta
 import OxiVerif.Lemmas.C14
 set_option linter.unusedSimpArgs false
 set_option linter.unusedVariables false
@@ -91,6 +92,53 @@ theorem assignFrom_eq_spec (levelOf : Elem → Nat) (els pre : List Elem) :
       · simp [h, stackOf_snoc]
       · simp [h]
     rw [hst, ih (pre ++ [e]), stackOf_eq_openTitles]
+
+/-! ### the document-level pass overwrites the per-page passes -/
+
+theorem setPath_erase (e : Elem) (st : Stack) : setPath (erasePath e) st = setPath e st := rfl
+theorem erase_setPath (e : Elem) (st : Stack) : erasePath (setPath e st) = erasePath e := rfl
+theorem erase_isTitle (e : Elem) : (erasePath e).isTitle = e.isTitle := rfl
+theorem erase_text (e : Elem) : (erasePath e).text = e.text := rfl
+
+/-- the pass reads nothing of what it overwrites -/
+theorem assignFrom_erase (levelOf : Elem → Nat) (hl : ∀ e, levelOf (erasePath e) = levelOf e)
+    (st : Stack) (l : List Elem) :
+    assignFrom levelOf st (l.map erasePath) = assignFrom levelOf st l := by
+  induction l generalizing st with
+  | nil => rfl
+  | cons e r ih =>
+    simp only [List.map_cons, assignFrom, erase_isTitle, erase_text, hl, setPath_erase, ih]
+
+theorem assignFrom_map_erase (levelOf : Elem → Nat) (st : Stack) (l : List Elem) :
+    (assignFrom levelOf st l).map erasePath = l.map erasePath := by
+  induction l generalizing st with
+  | nil => rfl
+  | cons e r ih => simp only [assignFrom, List.map_cons, erase_setPath, ih]
+
+theorem splitPages_flatten (els : List Elem) : (splitPages els).flatten = els := by
+  induction els with
+  | nil => rfl
+  | cons e r ih =>
+    simp only [splitPages]
+    split
+    · rename_i f g more h
+      rw [h] at ih
+      split <;> simp [← ih]
+    · rename_i h
+      simp [ih]
+
+theorem assignPerPage_map_erase (levelOf : Elem → Nat) (els : List Elem) :
+    (assignPerPage levelOf els).map erasePath = els.map erasePath := by
+  unfold assignPerPage
+  have : ∀ pages : List (List Elem),
+      (pages.flatMap (assignHeadingPaths levelOf)).map erasePath = pages.flatten.map erasePath := by
+    intro pages
+    induction pages with
+    | nil => rfl
+    | cons p r ih =>
+      simp only [List.flatMap_cons, List.map_append, List.flatten_cons, ih, assignHeadingPaths,
+        assignFrom_map_erase]
+  rw [this, splitPages_flatten]
 
 /-! ### `collect_pages` -/
 
@@ -226,5 +274,29 @@ theorem mapIdxFrom_map {β : Type} (f : Nat → Chunk → RagChunk) (g : RagChun
   induction cs generalizing k with
   | nil => rfl
   | cons c r ih => simp [mapIdxFrom, ih, List.range'_succ]
+
+/-! ### metadata -/
+
+theorem dedupFirst_all_seen (seen l : List Nat) (h : ∀ x ∈ l, x ∈ seen) : dedupFirst seen l = [] := by
+  induction l with
+  | nil => rfl
+  | cons p r ih =>
+    have hp : seen.contains p = true := by simpa using h p (by simp)
+    simp only [dedupFirst, hp, if_true]
+    exact ih (fun x hx => h x (by simp [hx]))
+
+theorem flags_fold (es : List Elem) (a : Flags) :
+    es.foldl (fun (a : Flags) e =>
+      ({ hasTable := a.hasTable || e.kind == .table,
+         hasList := a.hasList || e.kind == .listItem,
+         hasCode := a.hasCode || e.kind == .codeBlock,
+         headingOnly := a.headingOnly && e.kind == .title } : Flags)) a =
+      { hasTable := a.hasTable || es.any (·.kind == .table),
+        hasList := a.hasList || es.any (·.kind == .listItem),
+        hasCode := a.hasCode || es.any (·.kind == .codeBlock),
+        headingOnly := a.headingOnly && es.all (·.kind == .title) } := by
+  induction es generalizing a with
+  | nil => simp
+  | cons e r ih => simp only [List.foldl_cons, ih, List.any_cons, List.all_cons, Bool.or_assoc, Bool.and_assoc]
 
 end OxiVerif.C15
